@@ -223,7 +223,7 @@ func genRequest(t *rapid.T) (method, target, body string, nodesAPI bool) {
 		body = ""
 	case 1:
 		body = rapid.SampledFrom([]string{`[{"type":"value","value":5}]`, `{"id":"n9","type":"variable","parent":"inst","points":[{"type":"description","text":"x"}]}`,
-			`{"parent":"inst"}`, `{"id":"n1","oldParent":"inst","newParent":"n2"}`, `{"id":"n1","newParent":"n2","duplicate":true}`, `{"subject":"s","message":"m"}`, `inst`}).Draw(t, "body")
+			`{"parent":"inst"}`, `{"id":"n1","oldParent":"inst","newParent":"n2"}`, `{"id":"n1","newParent":"n2"}`, `{"subject":"s","message":"m"}`, `inst`}).Draw(t, "body")
 	default:
 		body = rapid.StringN(0, 20, 60).Draw(t, "junkBody")
 	}
